@@ -58,7 +58,7 @@ def main():
     rc, out = sh(os.path.join(VERIF, "tools/baseline.sh") + " " + wt)
     meta["suite_green_with_patch"] = rc == 0
     print("suite with patch:", "green" if rc == 0 else "RED\n" + out[-1500:])
-    dst = os.path.join(wt, pkgdir, "zz_seed_demo_test.go")
+    dst = os.path.join(wt, pkgdir, opts.get("demo-name", "zz_seed_demo_test.go"))  # some demonstrations assert their own file name
     shutil.copy(demo, dst)
     modroot = wt
     if pkgdir.startswith("exp") and not (runcmd.lstrip().startswith("(cd exp") or runcmd.lstrip().startswith("cd exp")):
